@@ -45,7 +45,7 @@ REQUIRED = dict(monitors=['intensity-per-angle', 'flux', 'eclipse-spectrum', 'di
                          'rerun:evaluated-after-change', 'mode:ktable', 'ktable:continuum-only-model',
                          'ktable:model_contrib-entry-judged', 'ktable-mode:no-molecular-absorber',
                          'fault:fired:temperature', 'fault:fired:chemistry', 'fault:fired:contribution', 'fault:fired:pressure',
-                         'several:evaluation-judged', 'several:set_quadratures-on-another-model'])
+                         'several:evaluation-judged', 'several:set_quadratures-on-another-model', 'wn-dtype:i'])
 CUT = math.exp(-10.0)
 _state = {}
 
@@ -325,6 +325,7 @@ def wl_ktable(ctx, rng):
 
 
 def observe_case(ctx, spec, kind):
+    ctx.observe('wn-dtype:' + next(iter(spec['tables'].values()))['wn'].dtype.kind)
     ctx.observe('model:' + kind, 'magnitude:' + spec['magnitude'], 'nlayers:%d' % spec['nlayers'],
                 'T:' + spec['temperature']['kind'], 'ngauss:%d' % spec['ngauss'])
     for c in spec['contributions']:
